@@ -98,7 +98,7 @@ def gen_abs(rnd):
                                                     rnd.getrandbits(16), rnd.getrandbits(48))
     a['prefix'] = rnd.choice([None, 'barectf_', 'my_', 'abc', 'T_x__'])
     a['options'] = rnd.choice([None, {}, {'gen-prefix-def': True}, {'gen-prefix-def': False, 'gen-default-stream-def': True}])
-    a['log-levels'] = rnd.choice([None, {'WARN': 4, 'DBG': 14}])
+    a['log-levels'] = rnd.choice([None, {'WARN': 4, 'DBG': 14, 'EMERG': 0}])
     a['env'] = rnd.choice([None, {'a': 1, 'b': 'text', 'neg': -3}])
     clocks = {}
     for i in range(rnd.choice([0, 1, 1, 2])):
@@ -159,7 +159,7 @@ def gen_abs(rnd):
         for en in rnd.sample(['ev', 'Beta', 'a', 'zz', 'ev_2'], nev):
             e = {}
             if rnd.random() < 0.4:
-                e['log-level'] = rnd.choice([0, 3, 14] + (['WARN'] if a['log-levels'] else []))
+                e['log-level'] = rnd.choice([0, 3, 14] + (['WARN', 'EMERG', 'EMERG'] if a['log-levels'] else []))
             e['ctx'] = gen_struct(rnd, 's', 0, 2) if rnd.random() < 0.35 else None
             e['payload'] = gen_struct(rnd, 'p', 1 if e['ctx'] is None or not e['ctx']['fields'] else 0, 4)
             evs[en] = e
